@@ -40,7 +40,7 @@ def run_one(m, baseline, tier):
             return "PATCH-FAILED", p.stdout
         env = dict(os.environ, GOFLAGS="-mod=mod", GOPROXY="off", GOSUMDB="off", GOTOOLCHAIN="local")
         if baseline:
-            b = subprocess.run(["go", "test", "-vet=off", "-count=1", "./..."], cwd=dst, env=env, stdout=subprocess.PIPE, stderr=subprocess.STDOUT, text=True)
+            b = subprocess.run(["go", "test", "-vet=off", "-count=1", "-timeout", "120s", "."], cwd=dst, env=env, stdout=subprocess.PIPE, stderr=subprocess.STDOUT, text=True)
             if b.returncode != 0:
                 return "BASELINE-KILLS", b.stdout[-1500:]
         res = []
